@@ -1,6 +1,6 @@
 (* Dispatch.v — one entry point `run op arg` for every executable model and spec.
    Used identically by the extracted runner (coq/extract) and by `Eval vm_compute` re-evaluation. *)
-From Verif Require Import PyVal Rows Enc ComparableGen AsIndicesGen Order Sort SortSpec Dedup DedupSpec.
+From Verif Require Import PyVal Rows Enc ComparableGen AsIndicesGen Order Sort SortSpec Dedup DedupSpec Basics SetOps SetSpec.
 Open Scope Z_scope.
 
 Definition run_cmp (arg : val) : val :=
@@ -109,6 +109,59 @@ Definition run_dedup_spec (arg : val) : val :=
   | _ => bad_input
   end.
 
+(* setop: (opname, strict, presorted, buffersize|None, table a, table b) *)
+Definition run_setop (arg : val) : val :=
+  match arg with
+  | VSeq _ [VStr opn; strict; pre; bs; ta; tb] =>
+      match dec_bool strict, dec_bool pre, dec_opt dec_nat bs, dec_table ta, dec_table tb with
+      | Some st, Some pre', Some bs', Some a, Some b =>
+          if zs_eqb opn "complement" then enc_gen (setop_model (OpComplement st) pre' bs' a b)
+          else if zs_eqb opn "intersection" then enc_gen (setop_model OpIntersection pre' bs' a b)
+          else if zs_eqb opn "hashcomplement" then enc_gen (setop_model (OpHashComplement st) pre' bs' a b)
+          else if zs_eqb opn "hashintersection" then enc_gen (setop_model OpHashIntersection pre' bs' a b)
+          else if zs_eqb opn "recordcomplement" then enc_gen (recordcomplement_model st bs' a b)
+          else bad_input
+      | _, _, _, _, _ => bad_input
+      end
+  | _ => bad_input
+  end.
+
+(* setop_spec: (kind 0=complement 1=intersection, strict, a, b, out) ; reassemble: (a, comp, inter); subseq: (out, a) *)
+Definition run_setop_spec (arg : val) : val :=
+  match arg with
+  | VSeq _ [kind; strict; ta; tb; out] =>
+      match dec_nat kind, dec_bool strict, dec_table ta, dec_table tb, dec_table out with
+      | Some k, Some st, Some a, Some b, Some o => enc_optbool (setop_spec_holds k st a b o)
+      | _, _, _, _, _ => bad_input
+      end
+  | _ => bad_input
+  end.
+Definition run_reassemble (arg : val) : val :=
+  match arg with
+  | VSeq _ [ta; c; i] =>
+      match dec_table ta, dec_table c, dec_table i with
+      | Some a, Some c', Some i' => enc_optbool (reassemble_holds a c' i')
+      | _, _, _ => bad_input
+      end
+  | _ => bad_input
+  end.
+Definition run_subseq (arg : val) : val :=
+  match arg with
+  | VSeq _ [o; a] =>
+      match dec_table o, dec_table a with
+      | Some o', Some a' => vbool (subseq (tl o') (tl a'))
+      | _, _ => bad_input
+      end
+  | _ => bad_input
+  end.
+(* cut: (spec tuple, missing, table) *)
+Definition run_cut (arg : val) : val :=
+  match arg with
+  | VSeq _ [VSeq _ spec; missing; t] =>
+      match dec_table t with Some t' => enc_gen (cut_model spec missing t') | None => bad_input end
+  | _ => bad_input
+  end.
+
 Definition run (op : list Z) (arg : val) : val :=
   if zs_eqb op "cmp" then run_cmp arg
   else if zs_eqb op "sort" then run_sort arg
@@ -118,4 +171,9 @@ Definition run (op : list Z) (arg : val) : val :=
   else if zs_eqb op "dedup" then run_dedup arg
   else if zs_eqb op "isunique" then run_isunique arg
   else if zs_eqb op "dedup_spec" then run_dedup_spec arg
+  else if zs_eqb op "setop" then run_setop arg
+  else if zs_eqb op "setop_spec" then run_setop_spec arg
+  else if zs_eqb op "reassemble" then run_reassemble arg
+  else if zs_eqb op "subseq" then run_subseq arg
+  else if zs_eqb op "cut" then run_cut arg
   else vtuple [vstr "!unknown-op"].
